@@ -4,6 +4,8 @@ import (
 	"errors"
 	"fmt"
 	"io"
+	"regexp"
+	"sort"
 	"strconv"
 	"strings"
 	"unicode/utf8"
@@ -14,6 +16,8 @@ import (
 	jjson "github.com/jsightapi/jsight-schema-core/json"
 	"github.com/jsightapi/jsight-schema-core/kit"
 	"github.com/jsightapi/jsight-schema-core/notations/jschema"
+	"github.com/jsightapi/jsight-schema-core/notations/jschema/ischema"
+	"github.com/jsightapi/jsight-schema-core/notations/jschema/ischema/constraint"
 	"github.com/jsightapi/jsight-schema-core/notations/regex"
 	"github.com/jsightapi/jsight-schema-core/openapi"
 	"github.com/jsightapi/jsight-schema-core/rules/enum"
@@ -368,6 +372,32 @@ func (in *inst) rawCall(kind string, sharedObj bool) (key string, out outcome) {
 			}
 			b, err := openapi.NewSchemaObject(s).MarshalJSON()
 			return key, bytesOutcome(b, err)
+		case "inner":
+			// The internal tree (exported: JSchema.Inner; it is what a validator
+			// walks) after compilation: the same for the same input, and untouched
+			// by whatever is processed later.
+			if in.js == nil {
+				return key, outcome{obs: "n/a"}
+			}
+			err := s.Check()
+			js := in.js
+			f := func() string { return "check=" + errText(err) + "\n" + innerText(js) }
+			return key, outcome{obs: f(), live: f}
+		case "ensureap":
+			// what a validator does before it validates objects: every object node
+			// gets an additionalProperties constraint unless it has one
+			if in.js == nil {
+				return key, outcome{obs: "n/a"}
+			}
+			_ = s.Check()
+			return key, outcome{obs: ensureAPText(in.js)}
+		case "vany":
+			return key, outcome{obs: safeStr(func() string {
+				var sb strings.Builder
+				d := &innerDumper{sb: &sb, seen: map[string]bool{}}
+				d.node(ischema.VirtualNodeForAny(), 0)
+				return sb.String()
+			})}
 		case "rules":
 			// The rule objects stay valid objects in the caller's hands after they
 			// were registered: what they report must not depend on what the schema
@@ -590,7 +620,7 @@ func writeInformer(sb *strings.Builder, inf openapi.SchemaInformer, depth int) {
 func scriptKinds(kind string) []string {
 	switch kind {
 	case "jschema":
-		return []string{"used", "len", "check", "ast", "example", "openapi", "deref", "rules", "types"}
+		return []string{"used", "len", "check", "ast", "example", "openapi", "deref", "rules", "types", "inner", "ensureap", "vany"}
 	case "rschema":
 		return []string{"used", "len", "check", "ast", "pattern", "example", "example", "example", "example", "openapi", "deref"}
 	case "enum":
@@ -601,4 +631,210 @@ func scriptKinds(kind string) []string {
 		return []string{"guess", "jguess"}
 	}
 	return nil
+}
+
+// ---- the internal tree ----------------------------------------------------------
+
+type innerDumper struct {
+	sb    *strings.Builder
+	types map[string]ischema.Type
+	seen  map[string]bool
+}
+
+var unnamedRe = regexp.MustCompile(`#0x[0-9a-f]+`)
+
+func (d *innerDumper) node(n ischema.Node, depth int) {
+	sb := d.sb
+	if n == nil {
+		sb.WriteString("<nil>")
+		return
+	}
+	if depth > 40 {
+		sb.WriteString("<deep>")
+		return
+	}
+	sb.WriteString("(" + safeStr(func() string { return n.Type().String() }))
+	sb.WriteString(" st=" + safeStr(func() string { return string(n.SchemaType()) }))
+	sb.WriteString(" rt=" + safeStr(n.RealType))
+	sb.WriteString(" v=" + strconv.Quote(safeStr(func() string { return n.Value().String() })))
+	sb.WriteString(" c=" + strconv.Quote(safeStr(n.Comment)))
+	sb.WriteString(" inh=" + strconv.Quote(safeStr(n.InheritedFrom)))
+	sb.WriteString(" ncons=" + safeStr(func() string {
+		k := n.NumberOfConstraints()
+		if n.Constraint(constraint.AdditionalPropertiesConstraintType) != nil {
+			k-- // reported by the ensureap call, whose position among the calls is free
+		}
+		return strconv.Itoa(k)
+	}))
+	sb.WriteString(" cons=[")
+	var refs []string
+	func() {
+		defer func() {
+			if r := recover(); r != nil {
+				sb.WriteString("<panic:" + panicText(r) + ">")
+			}
+		}()
+		cm := n.ConstraintMap()
+		if cm == nil {
+			return
+		}
+		cm.EachSafe(func(k constraint.Type, v constraint.Constraint) {
+			if k == constraint.AdditionalPropertiesConstraintType {
+				return
+			}
+			str := safeStr(v.String)
+			sb.WriteString(safeStr(k.String) + "=" + strconv.Quote(str) + ";")
+			refs = append(refs, unnamedRe.FindAllString(str, -1)...)
+		})
+	}()
+	sb.WriteString("]")
+	if mv, ok := n.(*ischema.MixedValueNode); ok {
+		tt := safeStr(func() string { return strings.Join(mv.GetTypes(), "|") })
+		sb.WriteString(" types=" + tt)
+		refs = append(refs, unnamedRe.FindAllString(tt, -1)...)
+	}
+	// an unnamed type is shown where it is first referred to, so the text does not
+	// depend on the order in which the library happened to register them
+	for _, name := range refs {
+		if d.seen[name] {
+			continue
+		}
+		d.seen[name] = true
+		sb.WriteString(" {" + name + ": ")
+		if t, ok := d.types[name]; ok && t.Schema != nil {
+			d.node(t.Schema.RootNode(), depth+1)
+		} else {
+			sb.WriteString("<unresolved>")
+		}
+		sb.WriteString("}")
+	}
+	switch b := n.(type) {
+	case *ischema.ObjectNode:
+		ch := b.Children()
+		sb.WriteString(" obj[")
+		for i, c := range ch {
+			k := b.Key(i)
+			sb.WriteString(strconv.Quote(k.Key))
+			if k.IsShortcut {
+				sb.WriteString("~")
+			}
+			sb.WriteString(":")
+			d.node(c, depth+1)
+			sb.WriteString(",")
+		}
+		sb.WriteString("]")
+	case *ischema.ArrayNode:
+		sb.WriteString(" arr[")
+		for _, c := range b.Children() {
+			d.node(c, depth+1)
+			sb.WriteString(",")
+		}
+		sb.WriteString("]")
+	}
+	sb.WriteString(")")
+}
+
+// normUnnamed renames the address-derived names of unnamed types by order of
+// first appearance: those names are internal, only their structure is compared.
+func normUnnamed(s string) string {
+	seen := map[string]int{}
+	return unnamedRe.ReplaceAllStringFunc(s, func(t string) string {
+		n, ok := seen[t]
+		if !ok {
+			n = len(seen) + 1
+			seen[t] = n
+		}
+		return "#U" + strconv.Itoa(n)
+	})
+}
+
+func sortedNamedTypes(js *jschema.JSchema) []string {
+	var names []string
+	for name := range js.Inner.TypesList() {
+		if !strings.HasPrefix(name, "#") {
+			names = append(names, name)
+		}
+	}
+	sort.Strings(names)
+	return names
+}
+
+func innerText(js *jschema.JSchema) string {
+	return normUnnamed(safeStr(func() string {
+		if js.Inner == nil {
+			return "<no inner>"
+		}
+		var sb strings.Builder
+		types := js.InnerTypesList()
+		d := &innerDumper{sb: &sb, types: types, seen: map[string]bool{}}
+		sb.WriteString("root: ")
+		d.node(js.Inner.RootNode(), 0)
+		sb.WriteString("\n")
+		unnamed := 0
+		for name := range types {
+			if strings.HasPrefix(name, "#") {
+				unnamed++
+			}
+		}
+		for _, name := range sortedNamedTypes(js) {
+			sb.WriteString("type " + name + ": ")
+			if t := types[name]; t.Schema != nil {
+				d.node(t.Schema.RootNode(), 1)
+			} else {
+				sb.WriteString("<nil schema>")
+			}
+			sb.WriteString("\n")
+		}
+		sb.WriteString("unnamed=" + strconv.Itoa(unnamed) + " shown=" + strconv.Itoa(len(d.seen)))
+		return sb.String()
+	}))
+}
+
+func walkNodes(n ischema.Node, depth int, f func(ischema.Node)) {
+	if n == nil || depth > 40 {
+		return
+	}
+	f(n)
+	switch b := n.(type) {
+	case *ischema.ObjectNode:
+		for _, c := range b.Children() {
+			walkNodes(c, depth+1, f)
+		}
+	case *ischema.ArrayNode:
+		for _, c := range b.Children() {
+			walkNodes(c, depth+1, f)
+		}
+	}
+}
+
+func ensureAPText(js *jschema.JSchema) string {
+	return safeStr(func() string {
+		if js.Inner == nil {
+			return "<no inner>"
+		}
+		var sb strings.Builder
+		visit := func(n ischema.Node) {
+			on, ok := n.(*ischema.ObjectNode)
+			if !ok {
+				return
+			}
+			on.EnsureAdditionalProperties()
+			c := on.Constraint(constraint.AdditionalPropertiesConstraintType)
+			if c == nil {
+				sb.WriteString("<none>;")
+				return
+			}
+			sb.WriteString(safeStr(c.String) + ";")
+		}
+		sb.WriteString("root: ")
+		walkNodes(js.Inner.RootNode(), 0, visit)
+		types := js.Inner.TypesList()
+		for _, name := range sortedNamedTypes(js) {
+			sb.WriteString(" type " + name + ": ")
+			if t := types[name]; t.Schema != nil {
+				walkNodes(t.Schema.RootNode(), 1, visit)
+			}
+		}
+		return sb.String()
+	})
 }
